@@ -96,12 +96,14 @@ type ContractSet struct {
 	Rules   []*StructRule
 	Specs   []string // raw SMT-LIB definitions (spec functions)
 	Blocks  []SpecBlock
+	Macros  map[string]SpecMacro
 	SpecSyms map[string]specSig
 	Templates map[string]*Contract // template name -> contract body
 	Families []*Family
 	FieldFuncs map[string]string // pkg::Struct.field -> pkg::TypeContract
 	ModSets    map[string][]string
 	Guarded    map[string]string // pkg::Struct.field -> name of the mutex field in the same struct
+	ChanInvs   map[string]*Clause // pkg::Struct.field -> invariant over the values sent on that channel (variable v)
 }
 
 type Family struct {
@@ -122,7 +124,7 @@ func newContractSet() *ContractSet {
 	cs := &ContractSet{
 		Funcs: map[string]*Contract{}, Types: map[string]*Contract{}, Ifaces: map[string]*Contract{},
 		Ghosts: map[string]*GhostDecl{}, SpecSyms: map[string]specSig{}, Templates: map[string]*Contract{},
-		FieldFuncs: map[string]string{}, ModSets: map[string][]string{}, Guarded: map[string]string{},
+		FieldFuncs: map[string]string{}, ModSets: map[string][]string{}, Guarded: map[string]string{}, ChanInvs: map[string]*Clause{},
 	}
 	// built-in ghost state maintained by the generator
 	cs.Ghosts["clock"] = &GhostDecl{Name: "clock", Sort: "Int"}
@@ -144,7 +146,7 @@ var clauseKeywords = map[string]bool{
 var blockKeywords = map[string]bool{
 	"func": true, "type": true, "iface": true, "ext": true, "ghost": true, "global": true,
 	"lemma": true, "spec": true, "rule": true, "package": true, "template": true, "funcs": true,
-	"ghostfield": true, "fieldfunc": true, "modset": true, "guarded": true,
+	"ghostfield": true, "fieldfunc": true, "modset": true, "guarded": true, "chaninv": true,
 }
 
 var labelRe = regexp.MustCompile(`^\[([A-Za-z0-9_.:-]+)\]\s*`)
@@ -156,6 +158,7 @@ func (cs *ContractSet) parseFile(path, pkg string, requirePrefix bool) error {
 	}
 	lines := strings.Split(string(data), "\n")
 	var cur *Contract
+	inModifies := false
 	var curClause *Clause
 	var curLemma *Lemma
 	var curSpec *strings.Builder
@@ -191,6 +194,7 @@ func (cs *ContractSet) parseFile(path, pkg string, requirePrefix bool) error {
 		indented := strings.HasPrefix(line, "  ") || strings.HasPrefix(line, "\t")
 		switch {
 		case blockKeywords[kw] && !indented:
+			inModifies = false
 			flushSpec()
 			cur, curClause, curLemma = nil, nil, nil
 			switch kw {
@@ -218,6 +222,13 @@ func (cs *ContractSet) parseFile(path, pkg string, requirePrefix bool) error {
 					gd.GoType = sortS
 				}
 				cs.Ghosts[f[0]] = gd
+			case "chaninv":
+				// chaninv Struct.field EXPR(v): every value v sent on the channel held in that field satisfies EXPR
+				f := strings.Fields(rest)
+				if len(f) < 2 {
+					return fmt.Errorf("%s:%d: chaninv Struct.field EXPR", path, ln)
+				}
+				cs.ChanInvs[pkg+"::"+f[0]] = &Clause{Kind: "chaninv", Text: strings.TrimSpace(strings.TrimPrefix(rest, f[0])), File: path, Line: ln, Label: f[0]}
 			case "guarded":
 				// guarded Struct.field by lockfield
 				f := strings.Fields(rest)
@@ -334,8 +345,25 @@ func (cs *ContractSet) parseFile(path, pkg string, requirePrefix bool) error {
 			curSpec.WriteString(strings.TrimSpace(line) + "\n")
 		case curLemma != nil:
 			curLemma.Text += strings.TrimSpace(line) + "\n"
+		case cur != nil && inModifies && !clauseKeywords[kw] && !blockKeywords[kw]:
+			for _, m := range splitTop(strings.TrimSpace(line), ',') {
+				m = strings.TrimSpace(m)
+				if m == "" {
+					continue
+				}
+				if strings.HasPrefix(m, "@") {
+					set, ok := cs.ModSets[m[1:]]
+					if !ok {
+						return fmt.Errorf("%s:%d: unknown modset %s", path, ln, m)
+					}
+					cur.Modifies = append(cur.Modifies, set...)
+					continue
+				}
+				cur.Modifies = append(cur.Modifies, m)
+			}
 		case cur != nil && clauseKeywords[kw]:
 			curClause = nil
+			inModifies = kw == "modifies"
 			switch kw {
 			case "prop":
 				cur.Props = append(cur.Props, strings.Fields(rest)...)
@@ -385,6 +413,9 @@ func (cs *ContractSet) parseFile(path, pkg string, requirePrefix bool) error {
 			case "modifies":
 				for _, m := range splitTop(rest, ',') {
 					m = strings.TrimSpace(m)
+					if m == "" {
+						continue
+					}
 					if strings.HasPrefix(m, "@") {
 						set, ok := cs.ModSets[m[1:]]
 						if !ok {
@@ -557,6 +588,12 @@ type SpecBlock struct {
 	Names []string
 }
 
+// SpecMacro: a non-recursive define-fun, usable for textual expansion
+type SpecMacro struct {
+	Params []string
+	Body   string
+}
+
 // specsFor returns the spec definitions a script body needs (transitively), in file order.
 func (cs *ContractSet) specsFor(body string) []string {
 	need := make([]bool, len(cs.Blocks))
@@ -607,6 +644,23 @@ func (cs *ContractSet) addSpec(text string) {
 		}
 		if m := formNameRe.FindStringSubmatch(body); m != nil {
 			b.Names = []string{m[2]}
+			if m[1] == "define-fun" {
+				args := sexprArgs(body)
+				// (define-fun name ((p S) ...) Ret body)
+				if len(args) == 5 {
+					var ps []string
+					for _, pd := range sexprArgs("(x " + strings.TrimSuffix(strings.TrimPrefix(args[2], "("), ")") + ")")[1:] {
+						pa := sexprArgs(pd)
+						if len(pa) >= 1 {
+							ps = append(ps, pa[0])
+						}
+					}
+					if cs.Macros == nil {
+						cs.Macros = map[string]SpecMacro{}
+					}
+					cs.Macros[m[2]] = SpecMacro{Params: ps, Body: args[4]}
+				}
+			}
 		} else if strings.HasPrefix(body, "(define-funs-rec") {
 			for _, ln := range strings.Split(f, "\n") {
 				fl := strings.Fields(ln)
